@@ -53,7 +53,7 @@ fn stream_shapes() -> Vec<Shape> {
 
 /// Generation profile per property.  `thorough` raises the size caps.
 pub fn profile_for(prop: &str, thorough: bool) -> Profile {
-    let max_n = if thorough { 40 } else { 24 };
+    let max_n = if thorough { 40 } else { 40 };
     let mut b = Profile::base(max_n);
     b.coop = true;
     let streams = stream_shapes();
@@ -506,4 +506,96 @@ pub fn replay_single(case: &SingleCase, prop: &str) -> (SingleResult, Vec<Violat
     }
     let v = r.violations.clone();
     (r, v)
+}
+
+// ------------------------------------------------------------------ big runs
+/// A few runs on graphs of more than 1024 functions (chain, fan-out, fan-in, tree):
+/// counts, depths and queue lengths beyond every size the random tier reaches.
+pub struct BigRuns {
+    pub runs: u64,
+    pub max_n: usize,
+    pub violation: Option<(Violation, SingleCase)>,
+    pub samples: Vec<serde_json::Value>,
+    pub hashes: Vec<u64>,
+}
+
+fn big_run_specs(seed: u64) -> Vec<(String, GraphSpec)> {
+    use crate::model::{Kind, TestFn};
+    let n = 1030 + (seed % 11) as usize;
+    let plain = |n: usize| -> Vec<TestFn> { (0..n).map(|id| TestFn { id, reads: vec![], writes: vec![] }).collect() };
+    let k = |i: usize| if i % 3 == 0 { Kind::Contains } else { Kind::Logic };
+    vec![
+        (format!("chain of {n}"), GraphSpec { fns: plain(n), edges: (0..n - 1).map(|i| (i, i + 1, k(i))).collect(), batches: vec![] }),
+        (format!("fan-out: one hub before {} functions", n - 1), GraphSpec { fns: plain(n), edges: (1..n).map(|i| (0, i, k(i))).collect(), batches: vec![] }),
+        (format!("fan-in: {} functions before one sink", n - 1), GraphSpec { fns: plain(n), edges: (0..n - 1).map(|i| (i, n - 1, k(i))).collect(), batches: vec![] }),
+        (format!("ternary tree of {n}"), GraphSpec { fns: plain(n), edges: (1..n).map(|i| ((i - 1) / 3, i, k(i))).collect(), batches: vec![] }),
+    ]
+}
+
+pub fn big_runs(prop: &'static str, seed: u64) -> BigRuns {
+    use crate::gen::{Api, Strat};
+    use std::sync::Mutex;
+    let res: Mutex<BigRuns> = Mutex::new(BigRuns { runs: 0, max_n: 0, violation: None, samples: vec![], hashes: vec![] });
+    let shapes: Vec<(Shape, bool, Option<usize>)> = vec![
+        (Shape::ForEach, false, None),
+        (Shape::ForEach, true, Some(3)),
+        (Shape::TryForEach, true, Some(0)),
+        (Shape::Fold, false, None),
+        (Shape::Stream, false, None),
+        (Shape::Stream, true, None),
+    ];
+    std::thread::scope(|sc| {
+        for (si, (desc, spec)) in big_run_specs(seed).into_iter().enumerate() {
+            let res = &res;
+            let shapes = shapes.clone();
+            sc.spawn(move || {
+                let g0 = crate::model::build_graph(&spec);
+                let facts = crate::model::GraphFacts::new(&spec, &g0);
+                let n = spec.n();
+                for (ci, (shape, rev, limit)) in shapes.into_iter().enumerate() {
+                    let cfg = RunCfg {
+                        api: Api { shape, with: true },
+                        rev,
+                        limit: if shape.is_concurrent() { limit } else { None },
+                        strat: Strat::NonInterruptible,
+                        include: true,
+                        failing: vec![],
+                        yields: (0..n).map(|i| ((i + ci) % 3) as u8).collect(),
+                        abort_after: None,
+                        instant: if shape.is_stream() || ci % 2 == 0 { vec![] } else { (0..n).collect() },
+                        coop: false,
+                        drop_sender: false,
+                        pre_interrupted: 0,
+                        on_clone: false,
+                        unwind: vec![],
+                        rev_again: 0,
+                        opts_order: (ci % 6) as u8,
+                    };
+                    // schedule: a short seed-derived tape with a pseudo-random tail
+                    let tape: Vec<u16> = (0..8u64).map(|j| (seed.wrapping_mul(0x9E37_79B9).wrapping_add(j * 7919 + si as u64 * 31 + ci as u64) >> 3) as u16).collect();
+                    let mut t = Tape::new(&tape);
+                    t.enable_tail();
+                    let mut g = g0.clone();
+                    let r = crate::cases::run_on(&mut g, facts.clone(), &cfg, Schedule::Tape(&mut t, 4 * n + 64, None));
+                    let case = SingleCase { spec: spec.clone(), cfg: cfg.clone(), acts: r.acts.clone(), pre: None };
+                    let viol = r.violations.iter().find(|v| v.prop == prop).cloned();
+                    let mut out = res.lock().unwrap();
+                    out.runs += 1;
+                    out.max_n = out.max_n.max(n);
+                    out.hashes.push(hash_of(&(&desc, ci)));
+                    if out.samples.len() < 2 {
+                        out.samples.push(serde_json::json!({"graph": desc, "api": cfg.api.name(), "reverse": rev, "limit": format!("{limit:?}"), "actions": r.acts.len(), "ret": r.ret.label()}));
+                    }
+                    if out.violation.is_none() {
+                        if let Some(v) = viol {
+                            let mut v = v;
+                            v.msg = format!("{desc}, {}: {}", cfg.api.name(), v.msg);
+                            out.violation = Some((v, case));
+                        }
+                    }
+                }
+            });
+        }
+    });
+    res.into_inner().unwrap()
 }
